@@ -50,6 +50,29 @@ Proof.
   constructor; [simpl; rewrite map_app; apply Qsum_app | exact IH].
 Qed.
 
+(* the same read through a slice (`plate[r].get_volumes(unit)`): one entry per addressed well, in the order the region lists them
+   (a well listed twice is reported twice), each the volume of that well's contents; wells outside the region are not read *)
+Definition slice_volumes (cf : cfg) (p : plate) (r : region) (pr : prefix) : list Q :=
+  map (fun i => match nth_error (wells p) i with Some c => get_volume cf c pr | None => 0 end) (region_idx (ncols p) r).
+Lemma slice_volumes_length cf p r pr : length (slice_volumes cf p r pr) = length (region_idx (ncols p) r).
+Proof. unfold slice_volumes. apply map_length. Qed.
+Theorem slice_volumes_wellwise cf p r pr : PInv cf p ->
+  Forall2 (fun v i => forall c, nth_error (wells p) i = Some c -> v == total_in cf (cont c) (pr, BL))
+          (slice_volumes cf p r pr) (region_idx (ncols p) r).
+Proof.
+  unfold PInv, slice_volumes. intros H. induction (region_idx (ncols p) r) as [|i t IH]; simpl; [constructor|].
+  constructor; [|exact IH]. intros c Hc. rewrite Hc. apply get_volume_def.
+  rewrite Forall_forall in H. apply H. eapply nth_error_In. exact Hc.
+Qed.
+(* a slice's entries do not depend on the wells it does not address *)
+Theorem slice_volumes_frame cf p ws' r pr :
+  (forall i, In i (region_idx (ncols p) r) -> nth_error ws' i = nth_error (wells p) i) ->
+  slice_volumes cf (with_wells p ws') r pr = slice_volumes cf p r pr.
+Proof.
+  intros H. unfold slice_volumes. replace (ncols (with_wells p ws')) with (ncols p) by reflexivity.
+  apply map_ext_in. intros i Hi. replace (wells (with_wells p ws')) with ws' by reflexivity. rewrite (H i Hi). reflexivity.
+Qed.
+
 (* after any history of the program language, every plate any operation returns reports, well by well, the
    volume of that well's contents, and as its total the sum of those *)
 Theorem plate_volumes_after_any_history cf ops pr : Forall wf_op ops ->
